@@ -34,7 +34,12 @@ def scale_rho_data(rd, lam):
 @st.composite
 def st_local(draw):
     model = draw(G.st_model(max_kernels=1))
-    return {"settings": {"sl": model["sl"], "nldf": model["nldf"], "sdmx": model["sdmx"]},
+    from cpverif import gen_settings as GS
+
+    # fractional-Laplacian settings (no molecular generator exists for them in the PySCF interface, so they only
+    # take part in the declared-power / normaliser part (3) of this sub-check)
+    nlof = draw(GS.st_fraclapl()) if draw(st.integers(0, 2)) == 0 else None
+    return {"settings": {"sl": model["sl"], "nldf": model["nldf"], "sdmx": model["sdmx"], "nlof": nlof},
             "lam": draw(st_lambda()), "nspin": draw(st.sampled_from([1, 2])), "n": draw(st.integers(1, 8)),
             "seed": draw(st.integers(0, 2**31 - 1)),
             "a0": draw(st.floats(0.7, 4.0)), "grad_mul": draw(st.sampled_from([0.0, 0.03, 0.1])),
@@ -45,7 +50,7 @@ def st_local(draw):
           rule="lambda log-uniform in [0.3,3] (|log lambda| > 0.05), generated per-point (rho, grad, tau) scaled as "
                "(l^3, l^4, l^5): (1) SemilocalPlan.get_feat scales with exactly the powers of sl_settings.get_feat_usps() in all "
                "four modes and both nspin; (2) get_cider_exponent / _gga scale as l^2 for every parameter tuple; (3) for every "
-               "FeatureSettings (semilocal + drawn NLDF / SDMX settings): a raw feature vector whose nonlocal rows are scaled "
+               "FeatureSettings (semilocal + drawn NLDF / SDMX / fractional-Laplacian settings): a raw feature vector whose nonlocal rows are scaled "
                "by the declared raw powers is mapped by get_normalized_feature_vector to one that scales with exactly "
                "get_feat_usps(with_normalizers=True), and after assign_reasonable_normalizer() those powers are 0 for every "
                "nonlocal feature (or the settings raised NotImplementedError); tolerance 1e-10 relative, elementwise; "
@@ -67,10 +72,12 @@ def local_scaling(case, ctx):
 
     # (3) needs the settings; NotImplementedError from the recommended normalisers is a documented outcome
     from ciderpress.dft import settings as S
+    from cpverif import gen_settings as GS
 
     fs = S.FeatureSettings(sl_settings=S.SemilocalSettings(spec["sl"]),
                            nldf_settings=G.build_nldf(spec["nldf"]) if spec["nldf"] else None,
-                           sdmx_settings=G.build_sdmx(spec["sdmx"]) if spec["sdmx"] else None)
+                           sdmx_settings=G.build_sdmx(spec["sdmx"]) if spec["sdmx"] else None,
+                           nlof_settings=GS.build_settings(spec["nlof"]) if spec.get("nlof") else None)
     mode = spec["sl"]
     ctx.event("mode=" + mode)
     plan = SemilocalPlan(fs.sl_settings, nspin)
@@ -99,7 +106,7 @@ def local_scaling(case, ctx):
     nnl = fs.nfeat - nsl
     if nnl == 0:
         return
-    fam = "+".join(f for f in ("nldf", "sdmx") if spec[f])
+    fam = "+".join(f for f in ("nldf", "nlof", "sdmx") if spec.get(f))
     ctx.event("family=" + fam)
     try:
         fs.assign_reasonable_normalizer()
@@ -118,7 +125,9 @@ def local_scaling(case, ctx):
     Xl[:, nsl:] = X[:, nsl:] * (lam ** raw_usps[nsl:])[None, :, None]
     XN = fs.normalizers.get_normalized_feature_vector(X.copy())
     XNl = fs.normalizers.get_normalized_feature_vector(Xl.copy())
-    ctx.nontrivial([spec["sl"], G.model_signature(dict(spec, xc2=False, kernels=[]))[1:3], nspin])
+    ctx.nontrivial([spec["sl"], G.model_signature(dict(spec, xc2=False, kernels=[]))[1:3], nspin,
+                    None if not spec.get("nlof") else [len(spec["nlof"]["slist"]), spec["nlof"]["nk0"], len(spec["nlof"]["l1_dots"]),
+                                                       len(spec["nlof"]["ld_dots"]), spec["nlof"]["ndd"]]])
     for k in range(fs.nfeat):
         cls = "sl" if k < nsl else fam
         relclose(XNl[:, k], XN[:, k] * lam ** norm_usps[k], ("normalized_usp", cls, mode), feature=k, lam=lam,
@@ -345,3 +354,49 @@ def nldf_integral_scaling(case, ctx):
             ctx.check(abs(uhat - u) <= 0.35, sig + ("empirical_power",), declared=float(u), measured=uhat, lam=lam, feature=k)
         # (ii) size: truncation-limited agreement, measured <= 0.154 of the maximum
         ctx.close(fl[k], want, sig, rtol=0.3, scale=sc, feature=k, lam=lam, declared=float(u))
+
+
+# ------------------------------------------------------------------------------------------------
+@st.composite
+def st_nlof_case(draw):
+    return {"mol": draw(G.st_mol(min_atoms=1, max_atoms=3, max_elec=18, levels=(0,), bases=("sto-3g", "6-31g", "6-31g*"), min_elec=1)),
+            "nlof": draw(G.st_nlof()), "dm": draw(G.st_dm(uks=False)), "lam": draw(st_lambda()),
+            "npts": draw(st.integers(8, 40)), "seed": draw(st.integers(0, 2**31 - 1))}
+
+
+@subcheck("C03", "nlof_feature_scaling", st_nlof_case, quick=64, thorough=1000, tolerances=dict(TOL, nlof_rtol=1e-9), shrink=False,
+          rule="G-mol x PSD dm x FracLaplSettings (1-3 powers s in [-1,1], scalar / vector / 'd' / 'dd' features, dot products incl. "
+               "the density gradient) x lambda: fractional-Laplacian features of the scaled molecule (coordinates/lambda, "
+               "exponents*lambda^2, same dm) at points r/lambda, computed with the repository's descriptor routine "
+               "(_fl_desc_getter: FLNumInt + FracLaplPlan), equal lambda^usp times the features of the original molecule at r, "
+               "usp from FracLaplSettings.get_feat_usps(); tolerance 1e-9 of the largest |feature| of the row (the radial 1F1 "
+               "functions are tabulated in the scale-invariant variable alpha r^2, so the identity holds to round-off; measured "
+               "1e-15); non-trivial = "
+               "|log lambda| > 0.1 and some |feature| > 1e-6")
+def nlof_feature_scaling(case, ctx):
+    from ciderpress.pyscf.descriptors import _fl_desc_getter
+
+    lam = case["lam"]
+    mol = G.build_mol(case["mol"])
+    mol_l = scaled_mol(mol, case["mol"], lam)
+    settings = G.build_nlof(case["nlof"])
+    dm = G.build_dm(mol, case["dm"])[0][0]["dm"]
+    rng = rng_from(case["seed"])
+    c = mol.atom_coords()
+    pts = c[rng.integers(0, len(c), case["npts"])] + rng.normal(size=(case["npts"], 3)) * 0.9
+    f = np.array(_fl_desc_getter(mol, probe_grids(mol, pts), dm, settings), copy=True)
+    fl = np.array(_fl_desc_getter(mol_l, probe_grids(mol_l, pts / lam), dm, settings), copy=True)
+    usps = np.asarray(settings.get_feat_usps(), float)
+    nl = case["nlof"]
+    for key in ("nk0", "nk1", "nd1", "ndd"):
+        ctx.event("nlof:%s=%s" % (key, "0" if nl[key] == 0 else ">0"))
+    ctx.check(f.shape[0] == len(usps) == settings.nfeat, ("nfeat_vs_usps", "nlof"), got=list(f.shape), n=len(usps))
+    ctx.finite(f, ("nlof_features",))
+    if abs(np.log(lam)) > 0.1 and np.max(np.abs(f)) > 1e-6:
+        ctx.nontrivial([case["nlof"], G.mol_class(case["mol"])])
+    kinds = ["k0"] * nl["nk0"] + ["l1dot"] * len(nl["l1_dots"]) + ["lddot"] * len(nl["ld_dots"]) + ["dd"] * nl["ndd"]
+    for k, u in enumerate(usps):
+        want = f[k] * lam**u
+        sc = float(np.max(np.abs(want))) + 1e-300
+        ctx.measure("nlof_scaling/" + kinds[k], float(np.max(np.abs(fl[k] - want)) / (1e-9 * sc)))
+        ctx.close(fl[k], want, ("nlof_usp", kinds[k]), rtol=0, atol=1e-9 * sc, feature=k, lam=lam, declared=float(u))
